@@ -73,6 +73,9 @@ type Scenario struct {
 	CloseTwice  bool         `json:"closeTwice"`
 	OnTracksErr bool         `json:"onTracksErr"`
 	BlockData   int          `json:"blockData"` // block the first data callback this many ms (look-ahead test)
+	CloseData   int          `json:"closeData"` // Close from inside the k-th data callback (0: never)
+	CloseAtMs   int          `json:"closeAtMs"` // Close this many ms after Start (0: never)
+	SlowData    int          `json:"slowData"`  // every data callback takes this many ms
 	MaxMs       int          `json:"maxMs"`
 	Tag         string       `json:"tag"`
 	// content mutation for C13: name of the mutation and the request index it applies to
@@ -510,6 +513,31 @@ func clientGoroutines() int {
 	return c
 }
 
+// workingGoroutines counts the client's goroutines that are still doing something: a goroutine whose only gohlslib
+// frames are the pool wrapper (after wg.Done) or Client.run (after the send on the buffered result channel) is on its
+// way out and is not counted.
+func workingGoroutines() int {
+	buf := make([]byte, 1<<20)
+	n := runtime.Stack(buf, true)
+	c := 0
+	for _, blk := range bytes.Split(buf[:n], []byte("\n\n")) {
+		deep := false
+		for _, ln := range bytes.Split(blk, []byte("\n")) {
+			if !bytes.HasPrefix(ln, []byte("github.com/bluenviron/gohlslib/v2.")) {
+				continue
+			}
+			if bytes.Contains(ln, []byte("(*clientRoutinePool).add.func1")) || bytes.Contains(ln, []byte("(*Client).run(")) {
+				continue
+			}
+			deep = true
+		}
+		if deep {
+			c++
+		}
+	}
+	return c
+}
+
 // Run executes one scenario and appends its trace.
 func Run(w *trace.W, idx int, sc Scenario) error {
 	r := &runner{sc: sc, w: w, faults: map[int]string{}}
@@ -550,7 +578,7 @@ func Run(w *trace.W, idx int, sc Scenario) error {
 		uri = "http://stub/index.m3u8"
 	}
 	var trackList []*gohlslib.Track
-	var dataN atomic.Int64
+	var dataN, inCb atomic.Int64
 	ended := atomic.Bool{}
 	client = &gohlslib.Client{
 		URI:                       uri,
@@ -580,7 +608,12 @@ func Run(w *trace.W, idx int, sc Scenario) error {
 				if ended.Load() {
 					r.cbAfter.Add(1)
 				}
+				inCb.Add(1)
+				defer inCb.Add(-1)
 				k := dataN.Add(1)
+				if sc.SlowData > 0 {
+					time.Sleep(time.Duration(sc.SlowData) * time.Millisecond)
+				}
 				if k == 1 && sc.BlockData > 0 {
 					time.Sleep(time.Duration(sc.BlockData) * time.Millisecond)
 				}
@@ -597,7 +630,7 @@ func Run(w *trace.W, idx int, sc Scenario) error {
 					ev["abs"] = at.Sub(t0).Microseconds()
 				}
 				r.emit(ev)
-				if sc.CloseWhen == "data" && k == 2 {
+				if (sc.CloseWhen == "data" && k == 2) || (sc.CloseData > 0 && int(k) == sc.CloseData) {
 					doClose()
 				}
 			}
@@ -620,9 +653,14 @@ func Run(w *trace.W, idx int, sc Scenario) error {
 		return nil
 	}
 	before := clientGoroutines()
+	beforeW := workingGoroutines()
 	start := time.Now()
 	if err := client.Start(); err != nil {
 		return err
+	}
+	if sc.CloseAtMs > 0 {
+		tm := time.AfterFunc(time.Duration(sc.CloseAtMs)*time.Millisecond, doClose)
+		defer tm.Stop()
 	}
 	maxMs := sc.MaxMs
 	if maxMs == 0 {
@@ -635,6 +673,16 @@ func Run(w *trace.W, idx int, sc Scenario) error {
 		got = 1
 	case <-time.After(time.Duration(maxMs) * time.Millisecond):
 	}
+	// at the very moment the outcome is known: nothing of the client may still be working, no callback in progress
+	inCbAtWait := int(inCb.Load())
+	aliveNow := 0
+	if got == 1 {
+		aliveNow = workingGoroutines() - beforeW
+		if aliveNow < 0 {
+			aliveNow = 0
+		}
+	}
+	scriptClosed := r.closed.Load()
 	ended.Store(true)
 	if got == 0 {
 		// no value within the budget: Close and wait again (a client that ignores Close is a violation)
@@ -674,8 +722,8 @@ func Run(w *trace.W, idx int, sc Scenario) error {
 		w.Emit(e)
 	}
 	r.mu.Unlock()
-	w.Emit(trace.M{"ev": "wait", "got": got, "extra": extra, "err": errClass(waitErr), "closed": b2i(r.closed.Load()),
-		"alive": alive, "cbAfter": int(r.cbAfter.Load()), "ms": int(time.Since(start).Milliseconds())})
+	w.Emit(trace.M{"ev": "wait", "got": got, "extra": extra, "err": errClass(waitErr), "closed": b2i(scriptClosed),
+		"alive": alive, "aliveNow": aliveNow, "inCb": inCbAtWait, "cbAfter": int(r.cbAfter.Load()), "ms": int(time.Since(start).Milliseconds())})
 	w.Emit(trace.M{"ev": "end"})
 	return nil
 }
